@@ -234,6 +234,7 @@ Proof.
     destruct (bytes_eqb (bs_data (r_name r)) (bs_data (rs_name s)) && ((r_type r =? 1)%N || (r_type r =? 28)%N)) eqn:F; [|exact (IH s tm sq oc L C Hj Hrs)].
     destruct (kadd_CI now tm sq (rs_cache s) (rs_jitter s) r oc orr L C Hr Hj HR) as (O1 & oc1 & C1).
     destruct (cache_add_eff now (rs_jitter s) r (rs_cache s)) as [[c' sg] ce] eqn:CA. cbn [fst snd] in *.
+    unfold resolver_report in *.
     set (report := negb (r_ttl r =? 0)%N && negb (existsb (addr_eqb (r_addr r)) (rs_addrs s))).
     assert (ER : ((r_ttl r =? 0)%N || existsb (addr_eqb (r_addr r)) (rs_addrs s)) = negb report).
     { unfold report. destruct (r_ttl r =? 0)%N, (existsb (addr_eqb (r_addr r)) (rs_addrs s)); reflexivity. }
